@@ -58,6 +58,14 @@ def r_kill_path(e, R):
         R.check(ok, "R-KILL-PATH", f"{fac.short}: forwards its kill_workers argument to shutdown", fac.short, norm(c),
                 "get_reusable_executor(kill_workers=True) does not reach shutdown(kill_workers=True): a stuck pool is waited for instead of killed",
                 e.loc(fac, c))
+        if ok:
+            # ... the caller's value, not one the factory has overwritten on the way
+            rebinds = [n for n in func_nodes(fac) if isinstance(n, ast.Name) and n.id == b[kwp].id and isinstance(n.ctx, (ast.Store, ast.Del))]
+            R.check(not rebinds, "R-KILL-PATH", f"{fac.short}: the kill_workers argument reaches shutdown as the caller gave it", fac.short,
+                    f"{b[kwp].id} rebound: {[norm(stmt_of(e, fac, n))[:40] for n in rebinds]}" if rebinds else b[kwp].id,
+                    f"the factory overwrites its `{b[kwp].id}` argument before handing it to shutdown(): get_reusable_executor(kill_workers=True) on an instance that "
+                    "is already flagged shut down (shutdown(wait=False) with tasks still running) or that the factory considers not worth killing waits for every "
+                    "running and queued task instead of killing the workers and failing the futures", e.loc(fac, rebinds[0]) if rebinds else None)
     wr = [q for q, attrs in fw.items() if "kill_workers" in attrs]
     if not wr:
         R.fail("R-KILL-PATH", "flags", "kill_workers", "no flag writer stores kill_workers", None)
